@@ -2,6 +2,7 @@ import Orb.Proto
 import Orb.Project
 import Driver.C18
 import Driver.HeapOps
+import Std.Data.HashMap
 
 /-!
   Driver for C15 (project.WGS84 / Mercator closed forms, project.Geometry, mvt tile projection).
@@ -25,7 +26,22 @@ import Driver.HeapOps
   * `tiles`: the same for `Layers.ProjectToWGS84` / `Layers.ProjectToTile` (models `layersProjectTo*`),
     judged layer by layer; `tile` runs the models `layerProjectToWGS84` / `layerProjectToTile`;
   * `proj`: kind / nesting / order preserved, `proj` called exactly once per vertex in storage order,
-    bound = box of the two projected corners, slices transformed in place.
+    bound = box of the two projected corners, slices transformed in place; `projd` is the same case
+    through the exported helper of the kind (`project.LineString`, …) instead of `project.Geometry`;
+  * `projn`: the same clauses on geometries of up to ~10⁵ vertices / members built from a formula on both
+    sides (`bigGeom`); the implementation's result travels as a digest (`digGeom`), which must equal the
+    digest of the specification (`fill g (ptsM f (verts g))`) and of the model;
+  * ABSOLUTE position (`tile-wgs84-absolute`, every `tile` / `tiles` / `seq` / `abs` case inside the judged
+    domain): the WGS84 image of every pixel equals the closed-form pixel centre of THAT tile and extent,
+    computed here with Lean's own libm, within 1e-9 degrees — a wrong offset shared by both directions
+    (a self-consistent round trip) fails it; `abs` additionally compares the images of pixel −½ and
+    extent−½ with the corners of maptile's `Tile.Bound()` (`tile-corner-bound`) and brackets the pixels
+    (0,0) and (extent, extent) within one pixel of them (`tile-pixel-bound`);
+  * receiver history: a trailing input token `w` / `wc` / `n` / `wn` on `tile` / `tiles` / `totile` / `abs`
+    means that the measured calls ran on a layer value already used for other tiles and another extent
+    (`wc`: on a struct copy of it; `n`: on a value built by `mvt.NewLayer`; `wn`: both) — the verdict is that of the fresh value, the models are pure functions of
+    (tile, extent); `seq` judges every step of a sequence of (tile, extent) steps over three layer
+    values and one `Layers` value like a `tile` case.
 -/
 namespace Driver.C15
 open Orb Orb.Proto Orb.Project Driver.C18
@@ -38,12 +54,25 @@ def rPiBits : UInt64 := 0x41731BF8457C1093
 def rPi180Bits : UInt64 := 0x40FB2D77DA4A0C31
 def c9999Bits : UInt64 := 0x3FEFFF2E48E8A71E
 
-def mkMFn (t : Array Ent) : MFn OF where
-  sin := look1 t "s"
-  log := look1 t "l"
-  atan := look1 t "a"
-  exp := look1 t "e"
-  tan := look1 t "t"
+/-- the table of recorded libm calls, hashed (tables of the size families reach 10⁵ entries);
+    the first entry of a key wins, as in `C18.look1` -/
+abbrev Tab := Std.HashMap (String × UInt64) UInt64
+
+def tabOf (t : Array Ent) : Tab :=
+  t.foldl (fun m e => if m.contains (e.fn, e.a) then m else m.insert (e.fn, e.a) e.v) {}
+
+def lookH (m : Tab) (fn : String) (x : OF) : OF :=
+  if x.v.isNaN then ⟨nanF, x.ok⟩ else
+  match m[(fn, x.v.toBits)]? with
+  | some v => ⟨Float.ofBits v, x.ok⟩
+  | none => ⟨nanF, false⟩
+
+def mkMFnH (m : Tab) : MFn OF where
+  sin := lookH m "s"
+  log := lookH m "l"
+  atan := lookH m "a"
+  exp := lookH m "e"
+  tan := lookH m "t"
   floor := fun x => ⟨x.v.floor, x.ok⟩
   max := fun a b => ⟨goMax a.v b.v, a.ok && b.ok⟩
   min := fun a b => ⟨goMin a.v b.v, a.ok && b.ok⟩
@@ -56,6 +85,8 @@ def mkMFn (t : Array Ent) : MFn OF where
   rPi := ofB rPiBits
   rPi180 := ofB rPi180Bits
   c9999 := ofB c9999Bits
+
+def mkMFn (t : Array Ent) : MFn OF := mkMFnH (tabOf t)
 
 instance : LE OF := ⟨fun a b => a.v ≤ b.v⟩
 instance : DecidableLE OF := fun a b => inferInstanceAs (Decidable (a.v ≤ b.v))
@@ -78,6 +109,13 @@ def handleConsts (out : Toks) : String :=
     if l == [piBits, twoPiBits, piHalfBits, d180piBits, rBits, rPiBits, rPi180Bits, c9999Bits] && rest == ["4096"]
     then "ok consts" else "diff consts"
   | none => "bad consts"
+
+/-- `shape => Layer n field:type* Layers elem`: the exported struct the models `layerProjectTo*` stand for
+    is (Name, Version, Extent, Features) — the projection reads `Extent` and `Features` only.  Any other
+    field is receiver state the model cannot follow (a cache, a flag): model and code disagree. -/
+def handleShape (out : Toks) : String :=
+  if out == ["Layer", "4", "Name:string", "Version:uint32", "Extent:uint32", "Features:[]*geojson.Feature", "Layers", "*mvt.Layer"]
+  then "ok shape layer-fields" else "diff layer-fields Layer 4 Name:string Version:uint32 Extent:uint32 Features:[]*geojson.Feature Layers *mvt.Layer"
 
 def absF (x : Float) : Float := x.abs
 
@@ -204,15 +242,60 @@ def gvalAgree (m : GVal OF) (i : GVal UInt64) : Option String :=
     clamp, where uint32 extents at zoom ≤ 1 reach level 33 at most).  44 leaves a factor 8. -/
 def resolutionLimit : Nat := 44
 
-/-- The tile round trip of ONE layer, judged on the implementation's outputs `g2` for inputs `gs`.
-    `agreed` = the twin reproduced the implementation on this case. -/
-def judgeLayer (F : MFn OF) (agreed : Bool) (x y z e : Nat) (gs g2 : List (GVal UInt64)) : String :=
+/-! ### absolute position of a tile's pixels -/
+
+/-- the property's stated tolerance: 1e-9 degrees -/
+def absTol : Float := 1e-9
+
+/-- pixels per tile side: the extent (2³² for extent 0: `isPowerOfTwo(0)`, n = 32) -/
+def spanF (e : Nat) : Float := if e == 0 then 4294967296.0 else Float.ofNat e
+
+/-- Closed form of the WGS84 position of the centre of pixel `p` of tile (x, y, z) at the given extent,
+    with Lean's OWN `exp` / `atan` (no table, nothing of the model `newProjection`): world fraction
+    `(tile + (pixel + ½) / extent) / 2^z`, longitude linear, latitude the inverse mercator. -/
+def absWGS84 (x y z e : Nat) (p : Pt Float) : Pt Float :=
+  let mt := Float.ofNat (2 ^ z)
+  let u := (Float.ofNat x + (p.x + 0.5) / spanF e) / mt
+  let v := (Float.ofNat y + (p.y + 0.5) / spanF e) / mt
+  ⟨360 * (u - 0.5), 2 * Float.atan (Float.exp (piF - 2 * piF * v)) * (180 / piF) - 90⟩
+
+def closeF (a b : Float) : Bool := (a - b).abs ≤ absTol
+
+def level (z e : Nat) : Nat := if isPowerOfTwo e then z + trailingZeros32 e else z + Nat.log2 e
+
+/-- domain of the absolute clause: a tile of the quantifier (zoom ≤ 22, x, y < 2^z) inside the judged resolution -/
+def absDomain (x y z e : Nat) : Bool := z ≤ 22 && x < 2 ^ z && y < 2 ^ z && level z e ≤ 44
+
+/-- number of units (vertices; a bound's two corners together: `project.Bound` re-boxes) of the WGS84
+    outputs `g1` that are NOT within `absTol` of the closed form of their input pixel, and the number of units -/
+def absBad (x y z e : Nat) (gs g1 : List (GVal UInt64)) : Nat × Nat :=
+  let ups := (gs.flatMap unitsV).zip (g1.flatMap unitsV)
+  let mn := fun (a b : Float) => if a ≤ b then a else b
+  let mx := fun (a b : Float) => if a ≤ b then b else a
+  let bad := ups.filter fun (ui, uo) =>
+    match ui, uo with
+    | [a], [o] => let w := absWGS84 x y z e a; !(closeF w.x o.x && closeF w.y o.y)
+    | [a, b], [lo, hi] =>
+      let wa := absWGS84 x y z e a
+      let wb := absWGS84 x y z e b
+      !(closeF (mn wa.x wb.x) lo.x && closeF (mn wa.y wb.y) lo.y && closeF (mx wa.x wb.x) hi.x && closeF (mx wa.y wb.y) hi.y)
+    | _, _ => true
+  (bad.length, ups.length)
+
+/-- The tile round trip of ONE layer, judged on the implementation's outputs `g1` (WGS84) and `g2` (back
+    in the tile) for inputs `gs`.  `agreed` = the twin reproduced the implementation on this case. -/
+def judgeLayer (F : MFn OF) (agreed : Bool) (x y z e : Nat) (gs g1 g2 : List (GVal UInt64)) : String :=
   let T := newProjection F x y z e
   let pow2 := isPowerOfTwo e
   let vin := gs.flatMap vertsV
   let vout := g2.flatMap vertsV
   let sameShape := gs.length == g2.length && (gs.zip g2).all fun (a, b) => shapeStr a == shapeStr b
   if !sameShape then "propfail tile-roundtrip-shape" else
+  let sameShape1 := gs.length == g1.length && (gs.zip g1).all fun (a, b) => shapeStr a == shapeStr b
+  if !sameShape1 then "propfail tile-wgs84-shape" else
+  -- absolute clause first: it is never absorbed by a known finding
+  let ab := if absDomain x y z e then absBad x y z e gs g1 else (0, 0)
+  if ab.1 != 0 then s!"propfail tile-wgs84-absolute extent={e} z={z} bad={ab.1} of={ab.2}" else
   let n := vin.length
   let pairs := vin.zip vout
   let badx := (pairs.filter fun (a, b) => !(a.x == b.x)).length
@@ -243,7 +326,15 @@ def judgeLayer (F : MFn OF) (agreed : Bool) (x y z e : Nat) (gs g2 : List (GVal 
     else if pow2 then s!"propfail tile-roundtrip-pow2 extent={e} z={z} bad-x={badx} bad-y={bady} polar={polar} of={n}"
     else s!"propfail tile-roundtrip-nonpow2 extent={e} z={z} bad-x={badx} bad-y={bady} polar={polar} of={n} {if offBy1 then "all-one-low" else "mixed"}"
 
-/-- `tile X Y Z extent k geom* => geom*(wgs84) geom*(tile) T…`
+def warmTag (rest : Toks) : String :=
+  match rest with
+  | ["w"] => " used-layer"
+  | ["wc"] => " copy-of-used-layer"
+  | ["n"] => " newlayer"
+  | ["wn"] => " used-newlayer"
+  | _ => ""
+
+/-- `tile X Y Z extent k geom* [w|wc] => geom*(wgs84) geom*(tile) T…`
     (`Layer.ProjectToWGS84` then `Layer.ProjectToTile`; features may be nil / typed nil) -/
 def handleTile (inp out : Toks) : String :=
   match (do
@@ -252,20 +343,22 @@ def handleTile (inp out : Toks) : String :=
     let (z, i) ← nat i
     let (e, i) ← nat i
     let (k, i) ← nat i
-    let (gs, _) ← many gval k i
+    let (gs, wm) ← many gval k i
     let (g1, o) ← many gval k out
     let (g2, o) ← many gval k o
     let (t, _) ← tableP o
-    pure (x, y, z, e, gs, g1, g2, t)) with
+    pure (x, y, z, e, gs, g1, g2, t, wm)) with
   | none => if out == ["panic"] then "propfail panic" else "bad tile"
-  | some (x, y, z, e, gs, g1, g2, t) =>
+  | some (x, y, z, e, gs, g1, g2, t, wm) =>
     let F := mkMFn t
     -- stage 1: the model of Layer.ProjectToWGS84 on the input; stage 2: the model of
     -- Layer.ProjectToTile on the implementation's own WGS84 features
     let m1 := layerProjectToWGS84 F x y z e (gs.map toOV)
     let m2 := layerProjectToTile F x y z e (g1.map toOV)
     let agree := firstSome ((m1.zip g1).map (fun (m, i) => gvalAgree m i) ++ (m2.zip g2).map (fun (m, i) => gvalAgree m i))
-    fin15 agree <| judgeLayer F agree.isNone x y z e gs g2
+    let v := judgeLayer F agree.isNone x y z e gs g1 g2
+    -- `w` / `wc`: the calls ran on a used layer value / on a struct copy of a used one (tag only)
+    fin15 agree <| if v.startsWith "ok tile" then v ++ warmTag wm else v
 
 /-- the features of every layer, layer by layer (as many per layer as the input has) -/
 def outP : List (Nat × List (GVal UInt64)) → P (List (List (GVal UInt64)))
@@ -288,13 +381,13 @@ def handleTiles (inp out : Toks) : String :=
     let (y, i) ← nat i
     let (z, i) ← nat i
     let (n, i) ← nat i
-    let (ls, _) ← many layerP n i
+    let (ls, wm) ← many layerP n i
     let (g1, o) ← outP ls out
     let (g2, o) ← outP ls o
     let (t, _) ← tableP o
-    pure (x, y, z, ls, g1, g2, t)) with
+    pure (x, y, z, ls, g1, g2, t, wm)) with
   | none => if out == ["panic"] then "propfail panic" else "bad tiles"
-  | some (x, y, z, ls, g1, g2, t) =>
+  | some (x, y, z, ls, g1, g2, t, wm) =>
     let F := mkMFn t
     let m1 := layersProjectToWGS84 F x y z (ls.map fun l => (l.1, l.2.map toOV))
     let mid := (ls.zip g1).map fun (l, g) => (l.1, g.map toOV)
@@ -302,7 +395,7 @@ def handleTiles (inp out : Toks) : String :=
     let cmp : List (Nat × List (GVal OF)) → List (List (GVal UInt64)) → List (Option String) := fun ms is =>
       (ms.zip is).flatMap fun (m, i) => (m.2.zip i).map fun (a, b) => gvalAgree a b
     let agree := firstSome (cmp m1 g1 ++ cmp m2 g2)
-    let vs := (ls.zip g2).map fun (l, g) => judgeLayer F agree.isNone x y z l.1 l.2 g
+    let vs := ((ls.zip g1).zip g2).map fun ((l, ga), g) => judgeLayer F agree.isNone x y z l.1 l.2 ga g
     -- the worst verdict of the layers: propfail (unabsorbed first), then skip, then ok
     let pf := vs.filter (·.startsWith "propfail")
     let v :=
@@ -312,7 +405,7 @@ def handleTiles (inp out : Toks) : String :=
       | none, none, some v => v
       | none, none, none =>
         if vs.all (· == "ok triv-tile-no-vertices") then "ok triv-tiles-no-vertices"
-        else s!"ok tiles layers={ls.length}{if ls.any (fun l => isPowerOfTwo l.1) then " pow2" else ""}{if ls.any (fun l => !isPowerOfTwo l.1) then " nonpow2" else ""}"
+        else s!"ok tiles layers={if ls.length ≤ 3 then toString ls.length else if ls.length ≤ 64 then "4-64" else ">64"}{if ls.any (fun l => isPowerOfTwo l.1) then " pow2" else ""}{if ls.any (fun l => !isPowerOfTwo l.1) then " nonpow2" else ""}{warmTag wm}"
     fin15 agree v
 
 /-- `totile X Y Z extent geom => geom T…` (twin only) -/
@@ -322,17 +415,17 @@ def handleToTile (inp out : Toks) : String :=
     let (y, i) ← nat i
     let (z, i) ← nat i
     let (e, i) ← nat i
-    let (g, _) ← geom i
+    let (g, wm) ← geom i
     let (g1, o) ← geom out
     let (t, _) ← tableP o
-    pure (x, y, z, e, g, g1, t)) with
+    pure (x, y, z, e, g, g1, t, wm)) with
   | none => if out == ["panic"] then "propfail panic" else "bad totile"
-  | some (x, y, z, e, g, g1, t) =>
+  | some (x, y, z, e, g, g1, t, wm) =>
     let F := mkMFn t
     let T := newProjection F x y z e
     let m := (geometryM (pureProj T.toTile) (toOG g) ()).1
     fin (geomAgree m g1) <|
-    if (vertsF g).any (fun p => p.y.abs > 89.1897) then "ok totile polar-clamp twin-only" else "ok totile twin-only"
+    if (vertsF g).any (fun p => p.y.abs > 89.1897) then "ok totile polar-clamp twin-only" ++ warmTag wm else "ok totile twin-only" ++ warmTag wm
 
 /-- the harness's point function: the k-th call maps p to an affine image shifted by k -/
 def affine (co : Array Float) : Proj Nat OF := fun p k =>
@@ -342,8 +435,9 @@ def affine (co : Array Float) : Proj Nat OF := fun p k =>
 
 def gvalShow (g : GVal UInt64) : String := showGVal g
 
-/-- `proj a b c d e f g h <gval> => <gval> calls alias` -/
-def handleProj (inp out : Toks) : String :=
+/-- `proj a b c d e f g h <gval> => <gval> calls alias`; `op` = `proj` (through `project.Geometry`) or
+    `projd` (the exported helper of the kind called directly): same model, same clauses -/
+def handleProj (op : String) (inp out : Toks) : String :=
   match (do
     let (co, i) ← many bits 8 inp
     let (g, _) ← gval i
@@ -377,12 +471,243 @@ def handleProj (inp out : Toks) : String :=
         if showGeom (mapGeom (fun _ => (0 : UInt64)) spec) != showGeom (mapGeom (fun _ => (0 : UInt64)) r) then "propfail project-shape" else
         if !(geomNaNEq spec r) then "propfail project-map" else
         (match g with
-         | .point _ | .bound _ _ => if al != "v" then "bad alias" else (match g with | .bound _ _ => "ok proj bound" | _ => "ok triv-proj-point")
+         | .point _ | .bound _ _ => if al != "v" then "bad alias" else (match g with | .bound _ _ => s!"ok {op} bound" | _ => s!"ok triv-{op}-point")
          | _ => if al != "1" then "propfail project-not-in-place" else
-                if vs.isEmpty then s!"ok triv-proj-empty {C18.kindTag g}" else s!"ok proj {C18.kindTag g}")
-      | .nilIface, .nilIface => if calls == 0 then "ok triv-proj-nil" else "propfail project-nil-calls"
-      | .nilSlice k, .nilSlice k' => if k == k' && calls == 0 then "ok triv-proj-nilslice" else "propfail project-nilslice"
+                if vs.isEmpty then s!"ok triv-{op}-empty {C18.kindTag g}" else
+                s!"ok {op} {C18.kindTag g}{if vs.length ≥ 4096 then " n>=4096" else if vs.length ≥ 60 then " n>=60" else ""}")
+      | .nilIface, .nilIface => if calls == 0 then s!"ok triv-{op}-nil" else "propfail project-nil-calls"
+      | .nilSlice k, .nilSlice k' => if k == k' && calls == 0 then s!"ok triv-{op}-nilslice" else "propfail project-nilslice"
       | _, _ => "propfail project-nil-kind"
+
+/-! ### formula-built big geometries (`c15BigGeom` of the harness) and their digest -/
+
+def bigPt (j : Nat) : Pt OF := ⟨⟨Float.ofNat (j % 97), true⟩, ⟨Float.ofNat (j % 89), true⟩⟩
+
+/-- the `k` vertices from number `j` on -/
+def bigPts (j k : Nat) : List (Pt OF) := (List.range k).map fun i => bigPt (j + i)
+
+/-- rows of a MultiLineString / Polygon: member `i` has `1 + i % 3` points, member `bigAt` has `bigN` (if > 0) -/
+def bigRows (n bigAt bigN : Nat) : List (List (Pt OF)) :=
+  ((List.range n).foldl (fun (st : Nat × Array (List (Pt OF))) i =>
+      let k := if i == bigAt && bigN > 0 then bigN else 1 + i % 3
+      (st.1 + k, st.2.push (bigPts st.1 k))) (0, #[])).2.toList
+
+/-- polygons of a MultiPolygon: polygon `i` has `1 + i % 2` rings; ring 0 as in `bigRows`, ring q ≥ 1 has `1 + (i+q) % 3` points -/
+def bigPolys (n bigAt bigN : Nat) : List (List (List (Pt OF))) :=
+  ((List.range n).foldl (fun (st : Nat × Array (List (List (Pt OF)))) i =>
+      let k0 := if i == bigAt && bigN > 0 then bigN else 1 + i % 3
+      let r0 := bigPts st.1 k0
+      if i % 2 == 0 then (st.1 + k0, st.2.push [r0])
+      else
+        let k1 := 1 + (i + 1) % 3
+        (st.1 + k0 + k1, st.2.push [r0, bigPts (st.1 + k0) k1])) (0, #[])).2.toList
+
+/-- members of a Collection: cycling P, LS(2), MP(1), B, R(3), PG(one ring of 2); member `bigAt` is a
+    geometry of kind `bigKind` (0 MP, 1 LS, 2 R, 3 PG, 4 MLS, 5 MPG) with `bigN` points -/
+def bigMembers (n bigAt bigN bigKind : Nat) : List (Geom OF) :=
+  ((List.range n).foldl (fun (st : Nat × Array (Geom OF)) i =>
+      let j := st.1
+      if i == bigAt && bigN > 0 then
+        let ps := bigPts j bigN
+        let g : Geom OF :=
+          match bigKind with
+          | 0 => .multiPoint ps
+          | 1 => .lineString ps
+          | 2 => .ring ps
+          | 3 => .polygon [ps]
+          | 4 => .multiLineString [ps]
+          | _ => .multiPolygon [[ps]]
+        (j + bigN, st.2.push g)
+      else
+        match i % 6 with
+        | 0 => (j + 1, st.2.push (.point (bigPt j)))
+        | 1 => (j + 2, st.2.push (.lineString (bigPts j 2)))
+        | 2 => (j + 1, st.2.push (.multiPoint (bigPts j 1)))
+        | 3 => (j + 2, st.2.push (.bound (bigPt j) (bigPt (j + 1))))
+        | 4 => (j + 3, st.2.push (.ring (bigPts j 3)))
+        | _ => (j + 2, st.2.push (.polygon [bigPts j 2]))) (0, #[])).2.toList
+
+def bigGeom (kind : String) (n bigAt bigN bigKind : Nat) : Option (Geom OF) :=
+  match kind with
+  | "MP" => some (.multiPoint (bigPts 0 n))
+  | "LS" => some (.lineString (bigPts 0 n))
+  | "R" => some (.ring (bigPts 0 n))
+  | "MLS" => some (.multiLineString (bigRows n bigAt bigN))
+  | "PG" => some (.polygon (bigRows n bigAt bigN))
+  | "MPG" => some (.multiPolygon (bigPolys n bigAt bigN))
+  | "C" => some (.collection (bigMembers n bigAt bigN bigKind))
+  | _ => none
+
+/-- word-wise FNV-1a step -/
+def fnvW (h x : UInt64) : UInt64 := (h ^^^ x) * 1099511628211
+
+def digPt (h : UInt64) (p : Pt UInt64) : UInt64 := fnvW (fnvW h p.x) p.y
+def digPts (h : UInt64) (ps : List (Pt UInt64)) : UInt64 := ps.foldl digPt (fnvW h ps.length.toUInt64)
+def digPtss (h : UInt64) (l : List (List (Pt UInt64))) : UInt64 := l.foldl digPts (fnvW h l.length.toUInt64)
+
+/-- digest of kind codes, member counts and coordinate bit patterns (`c15Digest` of the harness) -/
+partial def digGeom (h : UInt64) : Geom UInt64 → UInt64
+  | .point p => digPt (fnvW h 1) p
+  | .multiPoint ps => digPts (fnvW h 2) ps
+  | .lineString ps => digPts (fnvW h 3) ps
+  | .multiLineString ls => digPtss (fnvW h 4) ls
+  | .ring ps => digPts (fnvW h 5) ps
+  | .polygon rs => digPtss (fnvW h 6) rs
+  | .multiPolygon ps => ps.foldl digPtss (fnvW (fnvW h 7) ps.length.toUInt64)
+  | .bound a b => digPt (digPt (fnvW h 8) a) b
+  | .collection gs => gs.foldl digGeom (fnvW (fnvW h 9) gs.length.toUInt64)
+
+def fnvInit : UInt64 := 14695981039346656037
+
+/-- `projn via kind n bigAt bigN bigKind procs a b c d e f g h => digest calls alias` -/
+def handleProjN (inp out : Toks) : String :=
+  match (do
+    let (via, i) ← tok inp
+    let (kind, i) ← tok i
+    let (ns, i) ← many nat 5 i
+    let (co, _) ← many bits 8 i
+    pure (via, kind, ns, co)) with
+  | none => "bad projn"
+  | some (via, kind, ns, co) =>
+    if out == ["panic"] then "propfail panic" else
+    let n := ns.getD 0 0
+    let bigAt := ns.getD 1 0
+    let bigN := ns.getD 2 0
+    let bigKind := ns.getD 3 0
+    let procs := ns.getD 4 0
+    match bigGeom kind n bigAt bigN bigKind, out with
+    | some g, [ds, cs, al] =>
+      (match hexToNat? ds, cs.toNat? with
+       | some dn, some calls =>
+        let d := UInt64.ofNat dn
+        let f := affine (co.map fl).toArray
+        let (mr, mcalls) := geometryM f g 0
+        let dm := digGeom fnvInit (geomBits mr)
+        let agree : Option String :=
+          if dm == d && mcalls == calls then none else some s!"diff digest {natToHex dm.toNat 16} calls {mcalls}"
+        fin agree <|
+        -- executable statement of `project_map` on the digest: the calls are the run over the vertex
+        -- list in storage order, each vertex once, and the result is the input's shape filled with the outputs
+        let vs := verts g
+        let run := ptsM f vs 0
+        if calls != vs.length then s!"propfail project-calls-once-per-vertex calls={calls} vertices={vs.length}" else
+        let spec := digGeom fnvInit (geomBits (fill g run.1))
+        if spec != d then s!"propfail project-map digest want={natToHex spec.toNat 16} vertices={vs.length}" else
+        if al != "1" then "propfail project-not-in-place" else
+        let own := bigN == 0
+        let len := if own then n else bigN
+        s!"ok projn {via} {kind} {if own then "own-length" else "long-member"} {if len ≥ 65536 then "n>=65536" else if len ≥ 4096 then "n>=4096" else if len ≥ 1000 then "n>=1000" else "n<1000"}{if procs != 0 then " gomaxprocs" else ""}"
+       | _, _ => "bad projn-out")
+    | _, _ => "bad projn-kind"
+
+/-! ### absolute position: `Layer.ProjectToWGS84` of the tile's corners against maptile's `Tile.Bound()` -/
+
+/-- `abs X Y Z extent MP 4 (-½,-½) (E-½,E-½) (0,0) (E,E) [w|wc] => MP 4 … B W S E N T…` -/
+def handleAbs (inp out : Toks) : String :=
+  match (do
+    let (x, i) ← nat inp
+    let (y, i) ← nat i
+    let (z, i) ← nat i
+    let (e, i) ← nat i
+    let (g, wm) ← geom i
+    let (g1, o) ← geom out
+    let (b, o) ← geom o
+    let (t, _) ← tableP o
+    pure (x, y, z, e, g, wm, g1, b, t)) with
+  | none => if out == ["panic"] then "propfail panic" else "bad abs"
+  | some (x, y, z, e, g, wm, g1, b, t) =>
+    let F := mkMFn t
+    let m1 := layerProjectToWGS84 F x y z e [toOV (.val g)]
+    let agree := firstSome ((m1.zip [GVal.val g1]).map fun (m, i) => gvalAgree m i)
+    fin15 agree <|
+    let E := spanF e
+    let want : List (Pt Float) := [⟨-0.5, -0.5⟩, ⟨E - 0.5, E - 0.5⟩, ⟨0, 0⟩, ⟨E, E⟩]
+    let vin := vertsF g
+    if !(vin.length == 4 && (vin.zip want).all fun (a, b) => a.x == b.x && a.y == b.y) then "bad abs-input" else
+    match vertsF g1, b with
+    | [nw, se, p0, pe], .bound lo hi =>
+      if !absDomain x y z e then s!"skip abs-outside-judged-domain z={z} level={level z e}" else
+      let W := fl lo.x
+      let S := fl lo.y
+      let Ea := fl hi.x
+      let N := fl hi.y
+      -- (1) pixel −½ is the north-west corner of the tile, pixel extent−½ the south-east corner
+      if !(closeF nw.x W && closeF nw.y N && closeF se.x Ea && closeF se.y S) then
+        s!"propfail tile-corner-bound extent={e} z={z} nw={hx nw.x},{hx nw.y} se={hx se.x},{hx se.y}" else
+      -- (2) the centres of pixel (0,0) / (extent, extent) lie half a pixel inside / outside those corners
+      -- (longitude: half a pixel = 180/(2^z·extent) degrees; latitude: at most that, and more than nothing)
+      let pix := 360 / (Float.ofNat (2 ^ z) * E)
+      let inside := fun (d : Float) => 0 < d && d ≤ pix
+      if !(inside (p0.x - W) && inside (N - p0.y) && inside (pe.x - Ea) && inside (S - pe.y)) then
+        s!"propfail tile-pixel-bound extent={e} z={z}" else
+      -- (3) all four against the closed form with Lean's own libm
+      let ab := absBad x y z e [.val g] [.val g1]
+      if ab.1 != 0 then s!"propfail tile-wgs84-absolute extent={e} z={z} bad={ab.1} of={ab.2}" else
+      let exact := nw.x == W && nw.y == N && se.x == Ea && se.y == S
+      let cls := if e == 0 then "extent0" else if isPowerOfTwo e then "pow2" else "nonpow2"
+      s!"ok abs {cls} {if exact then "corners-bit-equal" else "corners-within-1e-9"}{warmTag wm}"
+    | _, _ => "propfail tile-wgs84-shape"
+
+/-! ### sequences of (tile, extent) steps on layer values with a history -/
+
+structure Step where
+  x : Nat
+  y : Nat
+  z : Nat
+  e : Nat
+  a : Nat
+  b : Nat
+  fl : Nat
+  gs : List (GVal UInt64)
+
+def stepP : P Step := fun ts => do
+  let (hd, ts) ← many nat 8 ts
+  let (gs, ts) ← many gval (hd.getD 7 0) ts
+  pure (⟨hd.getD 0 0, hd.getD 1 0, hd.getD 2 0, hd.getD 3 0, hd.getD 4 0 % 3, hd.getD 5 0 % 3, hd.getD 6 0, gs⟩, ts)
+
+/-- the outputs of every step: features after `ProjectToWGS84`, then after `ProjectToTile` -/
+def stepOutP : List Step → P (List (List (GVal UInt64) × List (GVal UInt64)))
+  | [] => fun ts => some ([], ts)
+  | s :: ss => fun ts => do
+    let (g1, ts) ← many gval s.gs.length ts
+    let (g2, ts) ← many gval s.gs.length ts
+    let (r, ts) ← stepOutP ss ts
+    pure ((g1, g2) :: r, ts)
+
+/-- `seq n (X Y Z extent a b flags k geom*)ⁿ => (geom*(wgs84) geom*(tile))ⁿ T…`: step i projects its
+    features to WGS84 on layer value `a` (flag 1: on a struct copy of it; flag 2: through the `Layers`
+    value; flag 4: through a copy of the `Layers` value) and back on layer value `b`.  Every step is
+    judged like a `tile` case of its own tile and extent: nothing of the earlier steps may matter. -/
+def handleSeq (inp out : Toks) : String :=
+  match (do
+    let (n, i) ← nat inp
+    let (ss, _) ← many stepP n i
+    let (os, o) ← stepOutP ss out
+    let (t, _) ← tableP o
+    pure (ss, os, t)) with
+  | none => if out == ["panic"] then "propfail panic" else "bad seq"
+  | some (ss, os, t) =>
+    let F := mkMFn t
+    let agree := firstSome <| (ss.zip os).flatMap fun (s, (g1, g2)) =>
+      let m1 := layerProjectToWGS84 F s.x s.y s.z s.e (s.gs.map toOV)
+      let m2 := layerProjectToTile F s.x s.y s.z s.e (g1.map toOV)
+      (m1.zip g1).map (fun (m, i) => gvalAgree m i) ++ (m2.zip g2).map (fun (m, i) => gvalAgree m i)
+    let vs := (ss.zip os).map fun (s, (g1, g2)) => judgeLayer F agree.isNone s.x s.y s.z s.e s.gs g1 g2
+    let pf := vs.filter (·.startsWith "propfail")
+    let key := fun (s : Step) => (s.x, s.y, s.z, s.e)
+    -- a layer value meets two different (tile, extent) pairs
+    let reuse := [0, 1, 2].any fun l =>
+      let ks := (ss.filter fun s => s.a == l || s.b == l).map key
+      ks.any fun k => ks.any fun k' => k != k'
+    let v :=
+      match pf.find? (fun v => !v.startsWith "propfail tile-roundtrip-polar-clamp"), pf.head?, vs.find? (·.startsWith "skip") with
+      | some v, _, _ => v
+      | none, some v, _ => v
+      | none, none, some v => v
+      | none, none, none =>
+        if vs.all (· == "ok triv-tile-no-vertices") then "ok triv-seq-no-vertices"
+        else s!"ok seq{if reuse then " layer-reused-for-other-tile-or-extent" else " no-reuse"}{if ss.any (fun s => s.a != s.b && !s.gs.isEmpty) then " back-on-other-layer" else ""}{if ss.any (fun s => s.fl % 4 ≥ 2) then " via-layers" else ""}{if ss.any (fun s => s.fl % 2 == 1 || s.fl % 8 ≥ 4) then " copies" else ""}"
+    fin15 agree v
 
 /-! ### heap level: `project.Geometry` on slices that share backing arrays (`Orb.HeapOps.projectH`) -/
 
@@ -455,12 +780,17 @@ def handle (ts : Toks) : String :=
     match op with
     | "projh" => handleProjH inp out
     | "consts" => handleConsts out
+    | "shape" => handleShape out
     | "w2m" => handleW2M inp out
     | "m2w" => handleM2W inp out
     | "tile" => handleTile inp out
     | "tiles" => handleTiles inp out
     | "totile" => handleToTile inp out
-    | "proj" => handleProj inp out
+    | "proj" => handleProj "proj" inp out
+    | "projd" => handleProj "projd" inp out
+    | "projn" => handleProjN inp out
+    | "abs" => handleAbs inp out
+    | "seq" => handleSeq inp out
     | _ => "bad op " ++ op
   | [] => "bad empty"
 
